@@ -19,6 +19,8 @@ Failures(T, e) ==
      Fail("FileIsPreviousOrCompleteNew_" \o e.kind, e.cls \in {"old", "new"})
   \cup Fail("FileParses_" \o e.kind, e.parses = 1)
   \cup Fail("EarlierRunsPreserved_" \o e.kind, e.preserved = 1)
+  \cup Fail("NextSaveAfterInterruptedSaveIsCompleteAndKeepsEverything",
+            e.follow = -1 \/ (e.follow = 1 /\ e.follow_parses = 1 /\ e.follow_preserved = 1))
   \cup Fail("CompletedSaveIsNew", (e.k > T.nops /\ T.repeat_name = 0) => e.cls = "new")
 
 TraceInit == tid \in 1..Len(Traces) /\ l = 0
